@@ -160,9 +160,9 @@ def step (st : DS) (ws : List String) : DS × String :=
         if !isRef r then (st, "bad-op") else if !st.live then (st, "nosto")
         else (st, showFOut (subFetch st.s (ofString r) o n))
       | _, _ => (st, "bad-op")
-    | ["stat", r] =>
-      if !isRef r then (st, "bad-op") else if !st.live then (st, "nosto")
-      else (st, match stat st.s (ofString r) with | some n => toString n | none => "notexist")
+    | "stat" :: refs =>
+      if refs.isEmpty || !refs.all isRef then (st, "bad-op") else if !st.live then (st, "nosto")
+      else (st, joinOrDash "," (sortStrings ((statBlobs st.s (refs.map ofString)).map (fun e => s!"{refStr e.1}:{e.2}"))))
     | ["enum", a, l] =>
       match hexArg a, nat? l with
       | some after, some limit =>
